@@ -1,0 +1,32 @@
+//go:build verif
+// +build verif
+
+// Package verifc05 forwards to internal/cgen for the /verif C05 harness
+// (coroutine results do not depend on where the I/O streams are split), which
+// lives in another module and so cannot import an internal package directly.
+// Compiled only with -tags verif.
+package verifc05
+
+import (
+	"github.com/google/wuffs/internal/cgen"
+
+	a "github.com/google/wuffs/lang/ast"
+	t "github.com/google/wuffs/lang/token"
+)
+
+// LiveFunc is one coroutine as the liveness analysis sees it.
+type LiveFunc = cgen.VerifC05LiveFunc
+
+// ReadMethod is one row of internal/cgen's readMethods table.
+type ReadMethod = cgen.VerifC05ReadMethod
+
+// Liveness runs the real findVars on every coroutine of the package and
+// serialises what the analysis looks at.
+func Liveness(tm *t.Map, files []*a.File) []LiveFunc { return cgen.VerifC05Liveness(tm, files) }
+
+// ReadMethods lists the readMethods table.
+func ReadMethods() []ReadMethod { return cgen.VerifC05ReadMethods() }
+
+// Do is cgen.Do (exactly what `wuffs-c gen <args>` runs), with the generated
+// program returned instead of being written to os.Stdout.
+func Do(args []string) ([]byte, error) { return cgen.VerifC05Do(args) }
